@@ -27,6 +27,20 @@ def fbTotal (h : Hist) (k : FbKind) : Int := (h.fb.filter (·.1 == k)).length
 def fbRolling (n : Nat) (w : Int) (h : Hist) (k : FbKind) (now : Int) : Int :=
   (h.fb.filter fun (k', t) => k' == k && decide (0 ≤ t) && decide (absIdx w t + n > absIdx w now)).length
 
+/-- the event-stream record as the property states it, from the history alone -/
+def streamSpec (n : Nat) (w : Int) (h : Hist) (now : Int) (isOpen : Bool) : Cons.StreamCounts :=
+  let r := fun k => rolling n w h k now
+  let fr := fun k => fbRolling n w h k now
+  { requestCount := r .success + r .failure + r .timeout + r .interrupt,
+    errorCount := r .failure + r .timeout,
+    rollS := r .success, rollRej := r .reject, rollF := r .failure, rollSC := r .shortCircuit, rollT := r .timeout,
+    rollBad := r .badRequest + r .interrupt,
+    cntS := total h .success, cntRej := total h .reject, cntF := total h .failure, cntSC := total h .shortCircuit,
+    cntT := total h .timeout, cntBad := total h .badRequest + total h .interrupt,
+    fbRollS := fr .success, fbRollRej := fr .reject, fbRollF := fr .failure,
+    fbCntS := fbTotal h .success, fbCntRej := fbTotal h .reject, fbCntF := fbTotal h .failure,
+    isOpen := isOpen }
+
 /-- (failures+timeouts)/(successes+failures+timeouts) over the window, as the correctly rounded double; 0 when empty -/
 def errorPercentage (n : Nat) (w : Int) (h : Hist) (now : Int) : Rat :=
   let s := rolling n w h .success now
